@@ -70,6 +70,7 @@ class C13(Property):
         "replace_at_equal_time", "replace_at_equal_time_difficulty", "replace_at_equal_time_effect",
         "replace_at_equal_time_sample", "f8_two_points", "searchKey_bound",
         "global_no_adjacent_redundancy_false", "repeated_time_adjacent_redundancy",
+        "chronological_no_adjacent_redundancy", "chrono_step", "adjFree_append",
     ]
     partial_theorems = {
         "adds_sorted": "ordering is by the total_cmp key, not by time: +0.0 and -0.0 are equal times with different keys, so 'at most one point "
